@@ -67,6 +67,10 @@ Definition def_code (d : udefault) : N := match d with DNone => 0 | DPlus => 1 |
 Definition usedeps_of (l : list usedep) : list (N * N * bytes) :=
   map (fun d => (form_type (u_form d), def_code (u_def d), u_flag d)) l.
 
+(* the comparison string RawParseAtomAtCursor builds for a version under operator [relop] *)
+Definition cmpstr (relop : N) (v : ver) : bytes :=
+  comp_ver relop (basever_of v) (suffix_of v) (revision_of v).
+
 Definition parse_atom (a : atom) : parsed :=
   let '(slot, sub, sop) :=
     match a_slot a with
@@ -225,6 +229,11 @@ Definition continues (a v : ver) : bool :=
          && is_eq (krank k ?= krank k')%N
      | _, _ => false
      end.
+
+(* the domain of the normal form, for a pair of versions: none of the classes 1-4 *)
+Definition in_domain (a v : ver) : bool :=
+  negb (kf_long a v) && negb (kf_lead0 a) && negb (kf_lead0 v)
+  && negb (kf_multisuf a) && negb (kf_multisuf v) && negb (kf_sufzero (v_sufs a) (v_sufs v)).
 
 Definition kf_ver (op : vop) (a v : ver) : N :=
   if kf_long a v then 1
